@@ -41,6 +41,7 @@ struct World {
     dspecs: Vec<DiffSpec>,
     score: ScoreSpec,
     seed_heavy: bool,
+    conversion_heavy: bool,
 }
 
 fn target_for(map: &Beatmap, mode: u8) -> GameMode {
@@ -101,7 +102,20 @@ fn run_job(w: &World, map: &Beatmap, job: &Job) -> String {
 
 fn gen_world(t: &mut Tape) -> (World, Vec<Job>) {
     let n_maps = t.range(2, 4) as usize;
-    let specs: Vec<MapSpec> = (0..n_maps).map(|_| gen_map(t, &MapProfile::small(ALL_MODES, 30))).collect();
+    // a quarter of the worlds is conversion-heavy: only osu maps of different densities (so their
+    // conversion parameters differ), converted to mania/taiko concurrently; taiko marathons (every
+    // section non-zero for hours) appear in a tenth of the maps
+    let conversion_heavy = t.chance(1, 4);
+    let specs: Vec<MapSpec> = (0..n_maps)
+        .map(|_| {
+            let mut prof = if conversion_heavy { MapProfile::small(crate::gen::map::OSU_ONLY, 60) } else { MapProfile::small(ALL_MODES, 30) };
+            if conversion_heavy {
+                prof.size_weights = [0, 3, 7];
+            }
+            prof.marathon_one_in = 10;
+            gen_map(t, &prof)
+        })
+        .collect();
     let texts: Vec<String> = specs.iter().map(MapSpec::render).collect();
     let maps: Vec<Beatmap> = specs.iter().map(MapSpec::decode).collect();
     // a third of the worlds is "seed-heavy": every job carries a lazer Random mod with its own seed, so
@@ -115,7 +129,7 @@ fn gen_world(t: &mut Tape) -> (World, Vec<Job>) {
                 d.mods = crate::gen::diff::ModsSpec {
                     bits: d.mods.bits & (crate::gen::diff::HR | crate::gen::diff::DT | crate::gen::diff::HD),
                     repr: crate::gen::diff::ModRepr::Lazer,
-                    extras: vec![crate::gen::diff::LazerExtra::Random((1000 * (i + 1)) as f64 + t.range(0, 999) as f64)],
+                    extras: vec![crate::gen::diff::LazerExtra::Random(Some((1000 * (i + 1)) as f64 + t.range(0, 999) as f64))],
                 };
             }
             d
@@ -126,14 +140,14 @@ fn gen_world(t: &mut Tape) -> (World, Vec<Job>) {
     let jobs = (0..n_jobs)
         .map(|_| Job {
             map: if t.chance(1, 2) { 0 } else { t.below_usize(n_maps) },
-            kind: if seed_heavy { *t.pick(&[2u8, 2, 3, 4, 5]) } else { t.below(6) as u8 },
-            mode: if seed_heavy { *t.pick(&[1u8, 3]) } else { *t.pick(&[1u8, 1, 0, 2, 3]) },
+            kind: if seed_heavy { *t.pick(&[2u8, 2, 3, 4, 5]) } else if conversion_heavy { *t.pick(&[1u8, 1, 2, 2, 3]) } else { t.below(6) as u8 },
+            mode: if seed_heavy { *t.pick(&[1u8, 3]) } else if conversion_heavy { *t.pick(&[3u8, 3, 3, 1]) } else { *t.pick(&[1u8, 1, 0, 2, 3]) },
             d: t.below_usize(3),
             yields: t.below(4) as u8,
             spin: if t.chance(1, 4) { t.range(0, 5000) as u16 } else { 0 },
         })
         .collect();
-    (World { specs, texts, maps, dspecs, score, seed_heavy }, jobs)
+    (World { specs, texts, maps, dspecs, score, seed_heavy, conversion_heavy }, jobs)
 }
 
 fn case_pool(t: &mut Tape, info: &mut CaseInfo) -> Result<(), String> {
@@ -187,6 +201,7 @@ fn case_pool(t: &mut Tape, info: &mut CaseInfo) -> Result<(), String> {
     info.label(if shared_queue { "shared-queue" } else { "static-partition" });
     info.label(if use_arc { "Arc" } else { "scope-ref" });
     info.label_if(w.seed_heavy, "seed-heavy(lazer Random mods with distinct seeds)");
+    info.label_if(w.conversion_heavy, "conversion-heavy(osu maps converted concurrently)");
     info.nontrivial = shares_map && has_taiko;
     info.set_key(&format!("{:?}{jobs:?}{n_threads}{shared_queue}{use_arc}{assignment:?}", w.specs));
     Ok(())
@@ -338,7 +353,7 @@ pub fn property() -> Property {
         subchecks: vec![
             SubCheck {
                 name: "thread-pool-vs-sequential",
-                rule: "job list of 8-64 jobs over 2-4 maps (decode, convert_ref, difficulty, strains, performance, gradual drain; half of the jobs on map 0 so maps are shared) x thread count 2..16 x assignment (generated static partition or shared atomic queue) x sharing mode (&Beatmap through thread::scope or Arc<Beatmap>) x per-job perturbation (0-3 yield_now, optional spin); a third of the job lists is seed-heavy: taiko/mania calculations under lazer Random mods with distinct seeds per settings object. Oracle: the result vector of the threaded run equals the sequential run of the same job list (canonical lines / digests). Run on the default and the `sync` build (thorough: additionally under ThreadSanitizer). Non-trivial: >=2 threads touch the same map and >=1 taiko calculation job.",
+                rule: "job list of 8-64 jobs over 2-4 maps (decode, convert_ref, difficulty, strains, performance, gradual drain; half of the jobs on map 0 so maps are shared) x thread count 2..16 x assignment (generated static partition or shared atomic queue) x sharing mode (&Beatmap through thread::scope or Arc<Beatmap>) x per-job perturbation (0-3 yield_now, optional spin); a third of the job lists is seed-heavy (taiko/mania calculations under lazer Random mods with distinct seeds per settings object), a quarter conversion-heavy (2-4 different osu maps of up to 60 objects converted to mania/taiko concurrently), a tenth of the maps are marathons (all gaps 100-300 s). Oracle: the result vector of the threaded run equals the sequential run of the same job list (canonical lines / digests). Run on the default and the `sync` build (thorough: additionally under ThreadSanitizer). Non-trivial: >=2 threads touch the same map and >=1 taiko calculation job.",
                 quick: 1500,
                 thorough: 25_000,
                 tape_len: 3400,
